@@ -220,6 +220,8 @@ def SugTarget (s : SugO) : Call → Prop
   | .trialStatus _ _ _ => False
   | .trialDelete _ => False
   | .trialUpdateFin _ _ _ => False
+  | .jobDelete _ => False
+  | .jobCreate _ => False
   | _ => True
 
 theorem target_sugFinish (s : SugO) (st : SugSt) : (sugFinish s st).All (SugTarget s) := by
@@ -325,6 +327,8 @@ theorem sugPlan_vjust {k : Key2} {m : Int} (v hS : World) (k' : Key2) (env : Sug
     | trialStatus _ _ _ => exact absurd ht id
     | trialDelete _ => exact absurd ht id
     | trialUpdateFin _ _ _ => exact absurd ht id
+    | jobDelete _ => exact absurd ht id
+    | jobCreate _ => exact absurd ht id
     | _ => trivial
 
 /-! ### the trial plan -/
